@@ -167,7 +167,14 @@ SealJudge(e) ==
   /\ (e.ev = "SealStat") => /\ PrintT(<<"STAT2", "C15_sim_buffers_opened", e.nodeOps, e.nodeOps + e.nnPost>>)
                             /\ PrintT(<<"STAT2", "C15_sim_label_headers", e.nnPre, e.nnPre>>)
 
+\* C03: the bound rests on the configured maximum suspicion timeout: no suspicion timer is ever armed
+\* with a longer one (whatever the observer's health)
+SuspJudge(e) ==
+  (e.ev = "NodeOp" /\ e.op = "suspect" /\ e.tpost.on /\ ~e.tpre.on /\ sim.nodes > 0) =>
+     CReport("C03_SuspicionMax", e, e.tpost.max <= MaxSuspicion(sim) /\ e.tpost.min <= e.tpost.max)
+
 CJudge(e) ==
+  /\ SuspJudge(e)
   /\ PickJudge(e)
   /\ SealJudge(e)
   /\ C04Judge(e)
